@@ -65,6 +65,10 @@ type Config struct {
 	MaxSteps int
 	// NoDrain: do not run the remaining goroutines after the body returned.
 	NoDrain bool
+	// ClockChoices: how many times per execution "the fake clock advances by 1 s although
+	// goroutines are runnable" is offered as an extra alternative (a timer such as a
+	// time.After backstop firing early); 0 = timers fire only when nothing else can run.
+	ClockChoices int
 }
 
 type Result struct {
@@ -515,6 +519,7 @@ func Run(t *testing.T, cfg Config, body func()) *Result {
 func (s *Sched) loop() {
 	ticks := 0
 	steps := 0
+	earlyTicks := 0
 	for {
 		synctest.Wait()
 		s.mu.Lock()
@@ -567,7 +572,22 @@ func (s *Sched) loop() {
 		})
 		c := 0
 		if !s.draining {
-			c = s.nextChoice(len(enabled), "sched", fmt.Sprint(enabled[0].ID), enabled[0].site)
+			n := len(enabled)
+			tickOffered := earlyTicks < s.cfg.ClockChoices
+			if tickOffered {
+				n++
+			}
+			c = s.nextChoice(n, "sched", fmt.Sprint(enabled[0].ID), enabled[0].site)
+			if tickOffered && c == len(enabled) {
+				// a timer fires although other goroutines could run: all managed goroutines are parked on
+				// their grant channels (durably blocked), so the bubble's clock advances during this sleep
+				earlyTicks++
+				s.res.Steps[len(s.res.Steps)-1].Who = "clock"
+				s.res.Steps[len(s.res.Steps)-1].Site = "clock advances 1s"
+				s.mu.Unlock()
+				time.Sleep(time.Second)
+				continue
+			}
 			s.res.Steps[len(s.res.Steps)-1].Who = fmt.Sprint(enabled[c].ID)
 			s.res.Steps[len(s.res.Steps)-1].Site = enabled[c].site
 		}
